@@ -680,7 +680,25 @@ func (r *runner) resolveCompletedTasks(ctx context.Context, completedTasks []*ta
 				if _, ok := writeChannelValues[next]; !ok {
 					writeChannelValues[next] = make(map[string]any)
 				}
+				if _, ok := writeChannelValues[next][t.nodeKey]; ok {
+					// the successor is reached twice (picked by two branches, or picked by a branch and a data
+					// successor as well): it keeps the copy it already has, the spare one must not be left open
+					if sr, isStream := vs[i].(streamReader); isStream {
+						sr.close()
+					}
+					continue
+				}
 				writeChannelValues[next][t.nodeKey] = vs[i]
+			}
+		}
+
+		// copies reserved for branches that selected fewer successors than there are branches
+		// (the copies behind the reserved ones were consumed by the branch conditions)
+		if reserved := len(t.call.writeTo) + len(t.call.writeToBranches); len(nextNodeKeys) < reserved {
+			for _, v := range vs[len(nextNodeKeys):reserved] {
+				if sr, isStream := v.(streamReader); isStream {
+					sr.close()
+				}
 			}
 		}
 	}
